@@ -110,7 +110,7 @@ class ObjectMixin:
             t = self.typer.field_type(rec.ci, name)
             if t is not None:
                 if rec.meta.get("symbolic"):
-                    v = fresh_value(self.st, self.typer, t, f"{rec.meta.get('name', rec.cls)}#{obj.oid}.{name}", det=True)
+                    v = fresh_value(self.st, self.typer, t, f"{rec.meta.get('name', rec.cls)}.{name}", det=True)
                     if isinstance(v, SObj):
                         self.st.objs[v.oid].meta["symbolic"] = True
                     rec.fields[name] = v
